@@ -912,6 +912,76 @@ def r20_position_verbatim(ctx, rule):
         ctx.ok(rule, PQF + '::PcfgQueue', 'self.max_probability is stored %d times: a constant, the saved option read with getfloat, the popped probability' % n_ok)
 
 
+def _below_every_probability(v):
+    """True: a value no pre-terminal probability (>= 0.0) is at or below; False: a value some pre-terminal can be at or below; None: not known"""
+    if isinstance(v, ast.UnaryOp) and isinstance(v.op, ast.USub):
+        c = const(v.operand)
+        if isinstance(c, (int, float)) and not isinstance(c, bool):
+            return c > 0
+        if U(v.operand) in ('math.inf', "float('inf')", 'float("inf")', 'inf'):
+            return True
+        return None
+    c = const(v)
+    if isinstance(c, (int, float)) and not isinstance(c, bool):
+        return c < 0
+    if U(v) in ("float('-inf')", 'float("-inf")'):
+        return True
+    return None
+
+
+def r28_exhausted_session_restores_nothing(ctx, rule):
+    """The save made when the grammar is exhausted describes "nothing left".
+
+    PcfgQueue.next() leaves max_probability at the probability of the pre-terminal popped last; that pre-terminal has been guessed (or, after
+    a quit inside its Markov level, is finished by restore_omen).  The restore re-creates every pre-terminal with probability <= the saved one,
+    so a final save of that value makes the resumed session guess the last pre-terminal a second time - after a quit inside the last Markov
+    level: the remainder of the level, then the whole level again (C15: "none repeated"; demonstrations of seeds C15-a / C15-b, cut positions in
+    the last pre-terminal).  Necessary condition decided here: on the exhaustion path the saved position is first moved below every probability
+    (a negative constant / -inf), either in run() in front of _save_session() or in next() on the empty-heap branch."""
+    rq = CS + 'run'
+    rfn = ctx.fn(rq)
+    ex = [n for n in walk_local(rfn) if isinstance(n, ast.If) and U(n.test) in ('pt_item is None', 'not pt_item', 'pt_item == None')]
+    if not ex:
+        ctx.unk(rule, rq, 'exhaustion test (pt_item is None) not found in run()')
+        return
+    b = ex[0].body
+    sv = [k for k, s_ in enumerate(b) if isinstance(s_, ast.Expr) and isinstance(s_.value, ast.Call) and call_name(s_.value) == 'self._save_session']
+    if not sv:
+        ctx.ok(rule, rq, 'no save on the exhaustion branch (judged by the saved-position rule)')
+        return
+    verdicts = []
+    for s_ in b[:sv[0]]:
+        for n in ast.walk(s_):
+            if isinstance(n, ast.Assign) and len(n.targets) == 1 and U(n.targets[0]) in ('self.pqueue.max_probability',):
+                verdicts.append((_below_every_probability(n.value), n))
+            elif isinstance(n, (ast.AugAssign, ast.AnnAssign)) and U(n.target) == 'self.pqueue.max_probability':
+                verdicts.append((None, n))
+    # the same move made by the queue itself: next(), empty heap
+    nfn = ctx.fn(PQ + 'next')
+    for n in walk_local(nfn):
+        if isinstance(n, ast.If) and ('len(self.p_queue)' in U(n.test) or U(n.test) in ('not self.p_queue',)) \
+                and any(isinstance(x, ast.Return) and (x.value is None or const(x.value) is None) for x in n.body):
+            for x in n.body:
+                if isinstance(x, ast.Assign) and len(x.targets) == 1 and U(x.targets[0]) == 'self.max_probability':
+                    verdicts.append((_below_every_probability(x.value), x))
+    # anything between the branch start and the save that could change the position in a way this rule does not follow
+    if any(v is None for v, _ in verdicts):
+        ctx.unk(rule, rq, 'the saved position is set on the exhaustion path to a value this rule cannot place: ' + U([n for v, n in verdicts if v is None][0])[:80])
+        return
+    if verdicts and verdicts[-1][0] is True and all(v for v, _ in verdicts):
+        ctx.ok(rule, rq, 'the position saved on exhaustion is below every pre-terminal (%s): a restored session has nothing to repeat' % U(verdicts[-1][1]))
+        return
+    if verdicts:
+        ctx.bad(rule, rq, 'the position saved on exhaustion is %s' % U(verdicts[-1][1].value),
+                'a restored session re-creates every pre-terminal whose probability is at or below the saved one; with a non-negative value the '
+                'last pre-terminal(s) are guessed again', None, verdicts[-1][1], firm=True)
+        return
+    ctx.bad(rule, rq, 'run() saves the probability of the last popped pre-terminal when the grammar is exhausted',
+            'PcfgQueue.next() leaves max_probability at the pre-terminal popped last, which has been guessed: the restore re-creates every '
+            'pre-terminal at or below the saved probability, so the resumed session guesses it again (after a quit inside the last Markov level: the '
+            'rest of the level, then the whole level once more)', None, b[sv[0]], firm=True)
+
+
 def _shared_rule(mod, name, **kw):
     def run(ctx, rule):
         import importlib
@@ -937,7 +1007,9 @@ def rules(tier):
             # next() ends the run only on an empty heap
             ('C08.R26', _shared_rule('plumbing', 'generator_glue')),
             # C08-ea: save_session pickles cur_guess.target_level in place of the cracker's target_level
-            ('C08.R27', _shared_rule('c15', 'r3_pickle_layout'))]
+            ('C08.R27', _shared_rule('c15', 'r3_pickle_layout')),
+            # fix 718673a: the save made on exhaustion must not name the last pre-terminal as still to do
+            ('C08.R28', r28_exhausted_session_restores_nothing)]
 
 
 META = {
